@@ -110,6 +110,7 @@ func DrawScenario(t *Tape, property string) (*Scenario, Config) {
 	}
 	cfg.EnvDelayMaxMs = []int{0, 200, 3000}[t.Next(3)]
 	cfg.ReadyDelayMaxS = []int{0, 2, 20}[t.Next(3)]
+	cfg.GCLagMaxMs = []int{0, 1000, 30000}[t.Next(3)]
 	applyProfile(t, property, sc, &cfg)
 	return sc, cfg
 }
